@@ -47,3 +47,17 @@ Proof.
     try discriminate; intro N; injection N as <-; unfold sat_schema;
     cbn [c_min c_max c_xmin c_xmax c_mult opt_ok]; destruct mu; cbn [opt_ok]; lia.
 Qed.
+
+(* number members: the keyword arguments mean exactly what the schema says, for all bounds *)
+Theorem constraints_preserved_h c c' hv :
+  cnormalize c = Some c' -> sat_model_h (ktranslate_h c') hv = sat_schema_h c hv.
+Proof.
+  unfold cnormalize. destruct c as [mn mx xmn xmx mu]. cbn [c_min c_max c_xmin c_xmax c_mult].
+  destruct xmx as [|[|]|x]; destruct mx as [m1|]; destruct xmn as [|[|]|y]; destruct mn as [m2|];
+    intro H; try discriminate; injection H as <-;
+    unfold sat_model_h, sat_schema_h, ktranslate_h; cbn [c_min c_max c_xmin c_xmax c_mult k_ge k_le k_gt k_lt opt_ok];
+    repeat match goal with
+           | |- context [?a <=? ?b] => destruct (a <=? b)
+           | |- context [?a <? ?b] => destruct (a <? b)
+           end; reflexivity.
+Qed.
